@@ -80,8 +80,15 @@ def build(seed, cell, vig=False, wide=False, rear=False):
         # the lens is entered on an Optic that held another lens before and was reset()
         reused, _ = build_rear_stop(random.Random(seed + 1), ("EPD", "angle", True, False))
         reused.reset()
+    robj = None
+    if (not inf) and ft == "object_height" and seed % 4 == 1:
+        # a curved object surface (a sphere through the object vertex): the rays start on it
+        mf = random.Random(seed + 7).uniform(0.5, 5.0)
+        robj = random.Random(seed + 8).choice([-1.0, 1.0]) * random.Random(seed + 9).uniform(3.0, 12.0) * mf
     o, meta = G.random_lens(rnd, aperture=ap, field_type=ft, finite_object=not inf, max_field=mf,
-                            kinds=("standard", "standard", "even_asphere"), mirrors=(seed % 5 == 0), optic=reused)
+                            kinds=("standard", "standard", "even_asphere"), mirrors=(seed % 5 == 0), optic=reused,
+                            object_radius=robj)
+    meta["object_radius"] = robj
     meta["optic_reused_after_reset"] = reused is not None
     if seed % 7 == 3 and not meta["mirror"]:
         # the stop is moved: a ready-made plane Surface carrying the stop flag is put into an air gap
@@ -161,7 +168,7 @@ def record_lens(task):
     if not (math.isfinite(ld["EPL"]) and math.isfinite(ld["EPD"])) or abs(ld["EPL"]) > 1e7 or abs(ld["EPD"]) > 1e7:
         out["skip"] = "entrance pupil at (or numerically near) infinity"
         return out
-    out["ld"] = {k: ld[k] for k in ("EPL", "EPD", "zobj", "zmin", "F", "NA", "vig")}
+    out["ld"] = {k: ld[k] for k in ("EPL", "EPD", "zobj", "zmin", "F", "NA", "vig", "Robj")}
     wls = list(o.wavelengths.get_wavelengths())
     for c in range(2):
         Hy = rnd.choice([rnd.uniform(-1, 1), rnd.uniform(-1, 1), 1.0, -1.0, 0.0])
